@@ -48,7 +48,7 @@ func ruleC20Files(c *Checker) {
 		return
 	}
 	walkFns := map[*ssa.Function]bool{}
-	for _, w := range pc.Walks {
+	for _, w := range pc.Hosts {
 		walkFns[w.Fn] = true
 		wname := p.FuncName(w.Fn)
 		var allOK []Edge
